@@ -37,6 +37,8 @@ type View struct {
 	Len   func() int
 	Item  func(i int) string
 	Slice func() []string
+	// Retained (views that hand out pointers): every item fetched first, read afterwards.
+	Retained func() []string
 }
 
 // Member is one value of the family.
@@ -161,6 +163,14 @@ func (m *Member) snapshot() {
 
 // Changed reports whether the member differs from its snapshot.
 func (m *Member) Changed() (bool, string) {
+	if m.Kind == KView && m.V.Retained != nil {
+		// what ItemAt handed out earlier stays what it was while further items are fetched
+		for i, s := range m.V.Retained() {
+			if now := m.V.Item(i); s != now {
+				return true, fmt.Sprintf("the pointer ItemAt(%d) returned reads %s after the other items were fetched, the item is %s", i, s, now)
+			}
+		}
+	}
 	if m.Digest() == m.Dig {
 		return false, ""
 	}
@@ -293,10 +303,17 @@ func NewWorld(t *rapid.T, b Bounds) *World {
 			}
 		}
 		w.inputs = append(w.inputs, ic)
+		built, origin := fs.Build(), fmt.Sprintf("New(base%d)", i)
+		if via := rapid.IntRange(0, 7).Draw(t, "viacsv"); via <= 1 && !w.Giant {
+			// the same table, built by the CSV reader instead of New
+			if back, ok := gen.ViaCSV(built, via == 1); ok {
+				built, origin = back, fmt.Sprintf("ReadCSV(ToCSV(New(base%d)))", i)
+			}
+		}
 		if b.Cold {
-			w.AddLight(&Member{Kind: KFrame, F: fs.Build(), Origin: fmt.Sprintf("New(base%d)", i), Owner: -1})
+			w.AddLight(&Member{Kind: KFrame, F: built, Origin: origin, Owner: -1})
 		} else {
-			w.AddFrame(fs.Build(), fmt.Sprintf("New(base%d)", i), -1)
+			w.AddFrame(built, origin, -1)
 		}
 	}
 	return w
